@@ -120,7 +120,16 @@ def run(spec, mon):
         gen = {"p_tag": 0.6, "p_param_tag": 0.5, "p_nonpass": 0.15, "p_wip": 0.1, "max_rules": 2, "p_reserved_tag": 0.4,
                "p_empty_examples": 0.0, "p_stepless": 0.1}     # row-less outlines are out of scope; a step-less scenario
         # (title and tags only) is a scenario: when de-selected it has to be reported skipped like any other
-        case = RB.gen_case(rng, gen=gen, p_stop=0.1, p_dry=0.15, p_noskipped=0.5)
+        if i % 9 == 4:
+            # tag names that CONTAIN the operator words of the new dialect (android, order, notify, sandbox) with old-style syntax
+            alt = ["android", "order", "notify", "sandbox", "b"]
+            gen["tags"] = alt
+        case = RB.gen_case(rng, gen=gen, p_stop=0.1, p_dry=0.15, p_noskipped=0.5, p_user_skip=0.1)
+        if i % 9 == 4:
+            ast, args = RB.random_expr(rng, tags=alt)
+            case["cfg"]["tags"] = ast
+            case["args"] = args + [a for a in case["args"] if not a.startswith("--tags")]
+            mon.seen("tag_name_class", "contains_operator_word")
         if i % 3 == 0:
             # expressions that refer to tags rendered from the special placeholders <row.index> <examples.index> <row.id>
             ast, args = RB.random_expr(rng, tags=["a", "b", "c", "r1", "r2", "q1.1", "q1.2", "q2.1"])
